@@ -458,7 +458,7 @@ func runC20(pl *plan.Plan, out *plan.Outcome) {
 	})
 	res := env.Run()
 	if res != "done" && out.Trouble == "" {
-		out.Trouble = "run ended: " + res
+		env.runEnded(res, out)
 		return
 	}
 	if n := cmdc.VerifLen(); n > cmdc.VerifCap {
